@@ -105,3 +105,14 @@ claim('C28', 'structural rules on els::util::pos_to_byte_index and FileCache::in
       'Decides five necessary conditions of document synchronisation: UTF-16 column units, char-boundary results, line clamp, full-text changes, cache and VFS updated together.',
       'Equality of the documents over arbitrary edit histories is not decided.',
       'DESIGN.md §3 C28')
+
+claim('C02', 'sign-interval abstraction of Python arithmetic over the declared operator table (typed HIR) + guard rule over the dunders of value-constrained runtime classes (python ast)',
+      'Decides the clause "a value-constraint error raised by Erg\'s runtime classes (a Nat becoming negative)": no operator is declared to return Nat where Python can return a negative '
+      'number, and no runtime wrapper narrows into Nat / Nat! without a guard (one known finding: Nat!.__truediv__).',
+      'TypeError / AttributeError / NameError freedom is soundness of the whole type checker and is not decided.',
+      'DESIGN.md §3 C02')
+claim('C26', 'declared operator table (typed HIR of init_builtin_classes) vs abstract sign/integrality semantics of Python and vs the runtime wrapper classes found through the MRO (python ast)',
+      'Decides that every operation returns an instance of a class that can hold Python\'s result: sign soundness (no Nat for possibly negative results), integrality '
+      '(one known finding: Int ** negative Int), and agreement of the wrapper applied at run time with the declared class.',
+      'Value-level agreement with the Python built-ins for concrete operands is not decided.',
+      'DESIGN.md §3 C26')
